@@ -147,3 +147,11 @@ func VerifC01_LateGrowth() {
 		c01framed(g, Type_GroupMod)
 	}
 }
+
+// a multipart request whose body is raw bytes (experimenter multipart): any body size
+func VerifC01_MultipartRawBody() {
+	r := &MultipartRequest{Header: NewOfp13Header(), Type: MultipartType_Experimenter, Flags: vr.U16("flags")}
+	r.Header.Type = Type_MultiPartRequest
+	r.Body = util.NewBuffer(vr.Bytes("body", vr.IntRange("bodylen", 0, 13)))
+	c01framed(r, Type_MultiPartRequest)
+}
